@@ -692,6 +692,23 @@ def run(ctx):
     return ctx.finish(LEVEL, explanation="theorems over the Gallina models of tree building / wrapper numbering / chunked output (tied by GenForms.v) + correspondence of the extracted models with the rebuilt library + differential run of every supply form")
 
 
+def run_robust(impl, lines, last_key, orc, mode, timeout):
+    """run the case lines in parallel; when a process dies or exceeds the time limit, the cases without a
+    (complete) result are run again one by one, and only a case that fails on its own is reported"""
+    rc, res, raw = core.run_lines_parallel(impl, lines, timeout=timeout)
+    if rc != 0:
+        for line in lines:
+            cid = line.split(" ", 1)[0]
+            if last_key(cid) in res:
+                continue
+            rc1, res1, raw1 = core.run_lines(impl, line + "\n", timeout=120)
+            res.update(res1)
+            if rc1 != 0:
+                orc.append(("crash", "the driver %s on this case (mode %s): %s" % (
+                    "did not finish within 120 s" if rc1 == 124 else "exited with status %d" % rc1, mode, raw1[-300:]), line))
+    return res
+
+
 def evaluate(ctx, r, impl, model, xalan, scale, state):
     import time
     corr, orc = state["corr"], state["orc"]
@@ -735,10 +752,8 @@ def evaluate(ctx, r, impl, model, xalan, scale, state):
         b_lines.append("%s B %s" % (cid, " ".join(ev)))
         b_exp[cid] = ref_build(ev)
         ctx.count("B:arbitrary-stream" + (":rejected" if b_exp[cid] == "ERR" else ""))
-    rc_i, res_i, raw_i = core.run_lines_parallel(impl, b_lines)
+    res_i = run_robust(impl, b_lines, lambda cid: cid, orc, "B", 120 * scale)
     res_m = core.run_lines_parallel(model, b_lines)[1] if model else {}
-    if rc_i != 0:
-        orc.append(("crash", "harness exited with status %d in mode B: %s" % (rc_i, raw_i[-300:]), ""))
     lines_by_id = {l.split(" ", 1)[0]: l for l in b_lines}
     for cid, exp in b_exp.items():
         ctx.cov["evaluations"] += 1
@@ -783,9 +798,7 @@ def evaluate(ctx, r, impl, model, xalan, scale, state):
         cid = "wr%d" % i
         w_lines.append("%s W %s r" % (cid, xml.encode().hex()))
         w_info[cid] = (None, {"doctype", "entref"}, xml)
-    rc_i, res_i, raw_i = core.run_lines_parallel(impl, w_lines)
-    if rc_i != 0:
-        orc.append(("crash", "harness exited with status %d in mode W: %s" % (rc_i, raw_i[-300:]), ""))
+    res_i = run_robust(impl, w_lines, lambda cid: cid + "/s", orc, "W", 120 * scale)
     m_lines = []
     for cid in w_info:
         x, s = res_i.get(cid + "/x"), res_i.get(cid + "/s")
@@ -847,11 +860,9 @@ def evaluate(ctx, r, impl, model, xalan, scale, state):
         o_lines.append("%s O u16 %d %s" % (cid, bs, toks))
         o_info[cid] = ("u16", bs, ws, True)
         ctx.count("O:fixed")
-    rc_i, res_i, raw_i = core.run_lines_parallel(impl, o_lines)
+    res_i = run_robust(impl, o_lines, lambda cid: cid, orc, "O", 120 * scale)
     m_lines = ["%s O %d %s" % (cid, bs, writes_tokens(ws)) for cid, (enc, bs, ws, oc) in o_info.items()]
     res_m = core.run_lines_parallel(model, m_lines)[1] if model else {}
-    if rc_i != 0:
-        orc.append(("crash", "harness exited with status %d in mode O: %s" % (rc_i, raw_i[-300:]), ""))
     o_by_id = {l.split(" ", 1)[0]: l for l in o_lines}
     for cid, (enc, bs, ws, oracle_class) in o_info.items():
         ctx.cov["evaluations"] += 1
@@ -935,17 +946,7 @@ def evaluate(ctx, r, impl, model, xalan, scale, state):
     # malformed source: every form must fail
     t_cases.append({"id": "tbad", "sheet": gen_sheet(r)[1], "src": PI + "<a><b></a>", "params": [], "flags": set(), "cls": "malformed-source", "srcflags": set(), "seed": 3})
     lines = [t_line(c["id"], c["seed"], c["sheet"], c["src"], c["params"], c["flags"]) for c in t_cases]
-    rc_i, res_i, raw_i = core.run_lines_parallel(impl, lines, timeout=300 * scale)
-    if rc_i != 0:
-        # a process died or ran into the time limit: run the cases without a result one by one
-        for c, line in zip(t_cases, lines):
-            if c["id"] + "/capi.prebuiltstream_todata" in res_i:
-                continue
-            rc1, res1, raw1 = core.run_lines(impl, line + "\n", timeout=120)
-            if rc1 == 0:
-                res_i.update(res1)
-            else:
-                orc.append(("crash", "the driver %s on this case: %s" % ("did not finish within 120 s" if rc1 == 124 else "exited with status %d" % rc1, raw1[-300:]), line))
+    res_i = run_robust(impl, lines, lambda cid: cid + "/capi.prebuiltstream_todata", orc, "T", 300 * scale)
     lap("T-driver")
     by_case = {}
     for k, v in res_i.items():
